@@ -44,6 +44,9 @@ def cases(tier, seed):
             s["par"] = 2
         s["seed"] = R.randrange(1 << 30)
         out.append(s)
+    for m in ("forkserver", "spawn"):
+        for kind in (("generic", "toast") if tier == "quick" else ("generic", "toast", "generic", "toast")):
+            out.append(dict(t="startmethod", method=m, kind=kind, depth=R.choice([2, 3]), par=R.choice([2, 4]), seed=R.randrange(1 << 30), profile="natural", apex=None))
     # sequences of walks in ONE process: state left behind by one walk (readiness tables, queues, counters) must not leak
     # into the next one. Directed part: walk A has a tile T that the filter accepts although none of its children is
     # accepted (T stays pre-readied); walk B has T as an ordinary live parent at least two levels above the leaves.
@@ -244,9 +247,62 @@ def run_seq(spec, workdir):
     return res
 
 
+def run_startmethod(spec, workdir):
+    """a fresh interpreter whose multiprocessing start method is not 'fork' (the default on macOS / Windows, and on Linux
+    from Python 3.14): a walk with an ordinary closure as callback and parallel=2 must still run every live parent once,
+    children first, and return"""
+    import subprocess
+    import sys
+
+    from vlib.core import repo_root
+
+    out = os.path.join(workdir, "calls")
+    d = spec["depth"]
+    script = (
+        "import multiprocessing as mp, os, sys\n"
+        "mp.set_start_method(%r, force=True)\n"
+        "sys.path.insert(0, %r)\n"
+        "from toasty.pyramid import Pyramid\n"
+        "def main():\n"
+        "    fd = os.open(%r, os.O_WRONLY | os.O_CREAT | os.O_APPEND)\n"
+        "    def cb(pos):\n"
+        "        os.write(fd, ('%%d %%d %%d\\n' %% (pos.n, pos.x, pos.y)).encode())\n"
+        "    Pyramid.new_%s(%d).walk(cb, parallel=%d)\n"
+        "    print('RETURNED')\n"
+        "if __name__ == '__main__':\n"
+        "    main()\n" % (spec["method"], repo_root(), out, spec["kind"], d, spec["par"]))
+    sp = os.path.join(workdir, "walk_script.py")
+    with open(sp, "w") as f:
+        f.write(script)
+    try:
+        r = subprocess.run([sys.executable, sp], capture_output=True, text=True, timeout=120, start_new_session=True)
+    except subprocess.TimeoutExpired:
+        return dict(status="inconclusive", detail="walk under start method %s still running after 120 s (wall clock only)" % spec["method"])
+    calls = [tuple(int(v) for v in l.split()) for l in open(out).read().splitlines()] if os.path.exists(out) else []
+    ops = rq.live_parents(d, None, (0, 0, 0))
+    v = []
+    if "RETURNED" not in r.stdout:
+        v.append(("walk-did-not-return", "interpreter ended with %s: %s" % (r.returncode, (r.stderr or "").strip().splitlines()[-1:] )))
+    c = collections.Counter(calls)
+    if set(c) != set(ops) or any(n != 1 for n in c.values()):
+        v.append(("callbacks-differ", "%d callbacks for %d live parents (max multiplicity %d)" % (len(calls), len(ops), max(c.values()) if c else 0)))
+    seen = set()
+    for p in calls:
+        if any(ch in ops and ch not in seen for ch in rq.children(p)):
+            v.append(("parent-before-child", "callback for %s before one of its live children" % (p,)))
+            break
+        seen.add(p)
+    res = dict(counters={"runs_startmethod_" + spec["method"]: 1}, nontrivial=True, sample=dict(spec=spec, callbacks=len(calls)))
+    if v:
+        res.update(status="violation", key="startmethod-%s:" % spec["method"] + "+".join(sorted({k for k, _ in v})), detail="; ".join(t for _, t in v[:4]))
+    return res
+
+
 def run_case(spec, workdir):
     if spec.get("t") == "seq":
         return run_seq(spec, workdir)
+    if spec.get("t") == "startmethod":
+        return run_startmethod(spec, workdir)
     depth = spec["depth"]
     apex = tuple(spec["apex"]) if spec.get("apex") else (0, 0, 0)
     acc = gens.resolve_accepted(spec)
